@@ -64,19 +64,27 @@ func (fsys *FS) OpenFile(path string, flags int, perm fs.FileMode) (afero.File, 
 		return NewVirtualISO(fsys.Fs, path, typ == virtualPS3ISOFile)
 	}
 
-	f, err := fsys.Fs.OpenFile(path, flags, perm)
-	if err != nil || modificationsEnabled { // do not try wrappers if modifications enabled
-		return f, err
+	// O_NONBLOCK: opening a named pipe blocks until somebody opens its other end, which nobody does - connection
+	// (and its place among allowed clients) would be stuck for ever. It means nothing for files and directories.
+	f, err := fsys.Fs.OpenFile(path, flags|syscall.O_NONBLOCK, perm)
+	if err != nil {
+		return nil, err
 	}
 
-	// do not try wrappers if it is a directory
 	stat, err := f.Stat()
 	if err != nil {
 		_ = f.Close()
 		return nil, err
 	}
 
-	if stat.IsDir() {
+	// named pipes, devices and sockets are not served
+	if !stat.Mode().IsRegular() && !stat.IsDir() {
+		_ = f.Close()
+		return nil, &fs.PathError{Op: "open", Path: path, Err: syscall.EINVAL}
+	}
+
+	// do not try wrappers if modifications enabled or it is a directory
+	if modificationsEnabled || stat.IsDir() {
 		return f, nil
 	}
 
